@@ -64,9 +64,34 @@ class Scenario:
         self.name, self.plot, self.run, self.confirm_switch = name, plot, run, confirm_switch
 
 
+OUT_OPTS = ("--save_results", "--save_plot", "--serialize_plot", "--save_table", "-o", "--out")
+
+
+def respell(argv, spelling, outdir):
+    """the same output targets, spelled differently on the command line"""
+    if spelling in (None, "plain"):
+        return argv
+    out = list(argv)
+    for i in range(1, len(out)):
+        if out[i - 1] in OUT_OPTS:
+            if spelling == "dot":
+                out[i] = "./" + out[i]
+            elif spelling == "abs":
+                out[i] = os.path.join(outdir, out[i])
+            elif spelling == "dotdot":
+                os.makedirs(os.path.join(outdir, "sub"), exist_ok=True)
+                out[i] = "sub/../" + out[i]
+            elif spelling == "tilde":
+                # an unexpanded '~' (quoted on the shell, or taken from a config file) is an
+                # ordinary directory name: ./~/<file>
+                os.makedirs(os.path.join(outdir, "~"), exist_ok=True)
+                out[i] = "~/" + out[i]
+    return out
+
+
 def cli_scenario(name, tool, argv_fn, plot=False, confirm_switch=True):
     def run(outdir, ctx, answers, no_warnings):
-        argv = argv_fn(ctx)
+        argv = respell(argv_fn(ctx), ctx.get("spelling"), outdir)
         if no_warnings:
             argv = argv + ["--no_warnings"]
         return cli.run_cli(tool, argv, cwd=outdir, answers=answers)
@@ -201,6 +226,34 @@ def scenarios():
     return S
 
 
+HOME_TAG = "HOME:" + os.sep
+
+
+def digest_roots(outdir):
+    """files below the working directory (relative names) and below the home directory
+    ('HOME:/name'; evo's own ~/.evo and tool caches excluded) -> sha256"""
+    d = dict(fsmon.digest_dir(outdir))
+    home = os.environ["HOME"]
+    if os.path.abspath(outdir).startswith(os.path.abspath(home) + os.sep):
+        return d
+    for k, v in fsmon.digest_dir(home).items():
+        if k.split(os.sep)[0] in (".evo", ".config", ".cache", ".matplotlib", ".ros"):
+            continue
+        d[HOME_TAG + k] = v
+    return d
+
+
+def loc(outdir, f):
+    return os.path.join(os.environ["HOME"], f[len(HOME_TAG):]) if f.startswith(HOME_TAG) else os.path.join(outdir, f)
+
+
+def clean_home():
+    home = os.environ["HOME"]
+    for k in fsmon.digest_dir(home):
+        if k.split(os.sep)[0] not in (".evo", ".config", ".cache", ".matplotlib", ".ros"):
+            os.remove(os.path.join(home, k))
+
+
 # ------------------------------------------------------------------ one matrix cell
 def k_cell(run, case):
     S = {s.name: s for s in scenarios()}[case["scenario"]]
@@ -211,11 +264,14 @@ def k_cell(run, case):
         ctx = {"in": ind, "arr": arr}
         if case["scenario"].startswith("evo_res"):
             ctx["zips"] = make_res_zips(work, ind)
+        srng = run.rng(case, stream=6)
+        ctx["spelling"] = case.get("spelling") or ["plain", "plain", "dot", "abs", "dotdot", "tilde"][srng.integers(6)]
         # A) discover the outputs of this scenario in an empty directory, warnings off
         outA = os.path.join(work, "A")
         os.makedirs(outA)
         rA = S.run(outA, ctx, [], True) if S.confirm_switch else S.run(outA, ctx, [], False)
-        OUT = sorted(fsmon.digest_dir(outA))
+        OUT = sorted(digest_roots(outA))
+        clean_home()
         if not run.check(rA.ok and OUT, "scenario produces its outputs", case,
                          "%s did not produce outputs in an empty directory: %r" % (S.name, rA)):
             return
@@ -231,8 +287,8 @@ def k_cell(run, case):
         erng = run.rng(case, stream=5)
         existing_kind = case.get("existing") or ["content", "content", "empty", "symlink"][erng.integers(4)]
         for f in E:
-            os.makedirs(os.path.dirname(os.path.join(outB, f)) or outB, exist_ok=True)
-            dst = os.path.join(outB, f)
+            dst = loc(outB, f)
+            os.makedirs(os.path.dirname(dst) or outB, exist_ok=True)
             if existing_kind == "empty":
                 open(dst, "wb").close()
             elif existing_kind == "symlink":
@@ -243,15 +299,15 @@ def k_cell(run, case):
                 os.symlink(real, dst)
             else:
                 open(dst, "wb").write(b"OLD CONTENT of " + f.encode() + b"\n" * 3)
-        before = fsmon.digest_dir(outB)
+        before = digest_roots(outB)
         with fsmon.Recorder() as rec:
             rB = S.run(outB, ctx, [answer] * 40, no_warnings)
-        after = fsmon.digest_dir(outB)
+        after = digest_roots(outB)
         confirm_on = (not no_warnings) or not S.confirm_switch
         nprompts = len(rB.prompts)
-        run.seen(case, core.digest(S.name, E, answer, no_warnings, existing_kind), nontrivial=bool(E),
+        run.seen(case, core.digest(S.name, E, answer, no_warnings, existing_kind, ctx["spelling"]), nontrivial=bool(E),
                  cls=["scenario:" + S.name, "answer:%r" % answer, "warnings off" if not confirm_on else "warnings on",
-                      "existing targets: " + existing_kind,
+                      "existing targets: " + existing_kind, "target spelling: " + ctx["spelling"],
                       "existing:%d/%d" % (len(E), len(OUT))],
                  sample={"scenario": S.name, "outputs": OUT, "pre_existing": E, "answer": answer,
                          "no_warnings": no_warnings, "prompts": nprompts,
@@ -276,7 +332,7 @@ def k_cell(run, case):
                           "%s: no confirmation prompt although a target exists" % label,
                           key="no-prompt:" + S.name)
             for f in E:
-                ev = rec.destructive_on(os.path.join(outB, f))
+                ev = rec.destructive_on(loc(outB, f))
                 run.counters["no destructive file-system event on a declined target"] += 1
                 if ev:
                     run.violation("destructive-event-on-declined:" + S.name, "%s: %s on existing %s although "
@@ -293,7 +349,7 @@ def k_cell(run, case):
             # (every scripted prompt is also appended to the Recorder's event log, see
             # install_prompt_bridge, so prompts and file-system events share one order)
             for f in E:
-                ev = rec.destructive_on(os.path.join(outB, f))
+                ev = rec.destructive_on(loc(outB, f))
                 run.counters["destructive events on a target come after its confirmation"] += 1
                 # count prompts answered before the first destructive event
                 if ev:
@@ -315,10 +371,10 @@ def k_cell(run, case):
         # creation) must not count as a confirmation for the next save
         if confirm_on and E and rB.exc is None:
             again = "n" if answer == "y" else "y"
-            before2 = fsmon.digest_dir(outB)
+            before2 = digest_roots(outB)
             existing2 = sorted(f for f in OUT if f in before2)
             r2 = S.run(outB, ctx, [again] * 40, no_warnings)
-            after2 = fsmon.digest_dir(outB)
+            after2 = digest_roots(outB)
             changed2 = [f for f in existing2 if after2.get(f) != before2[f]]
             run.counters["repeated save to the same paths is confirmed again"] += 1
             if again != "y":
@@ -337,6 +393,7 @@ def k_cell(run, case):
                                   "replace %s" % (S.name, sorted(set(stale) - set(changed2))), case)
     finally:
         shutil.rmtree(work, ignore_errors=True)
+        clean_home()
 
 
 def k_exe(run, case):
